@@ -151,7 +151,7 @@ pub fn run(_tier: Tier, shard: Shard, rep: &mut Report) {
     rep.rule = "the C13 and C14 matrices (every hit location, action, checker setting, populate outcome) x umask {000, 022, 077}: \
         F_GETFL access mode and lseek(SEEK_CUR) of every returned handle (judge and checker read the files they are given to the \
         end), bytes read to the end, st_mode of every file visible under the key name in the write cache; by-path set/put additionally with sources made by \
-        File::create (mode 0666 & !umask) under umask 000/002/022/077. For every cell that promotes a read-only hit, fills a miss or replaces a value, each call of the operation additionally fails \
+        File::create (mode 0666 & !umask) under umask 000/002/022/077; every writing cell again with the handle built with auto_sync(false). For every cell that promotes a read-only hit, fills a miss or replaces a value, each call of the operation additionally fails \
         in turn (two errnos per call): a handle returned all the same must still be read-only, at offset 0 and whole. Plus, under concurrency \
         (ensure / get_or_update / get racing with a deleter, an evicting writer or a replacing writer on plain, sharded and stacked \
         front-ends, all schedules with <= 2 preemptions): every handle returned is read-only, at offset 0 and whole. Non-trivial = \
@@ -189,6 +189,17 @@ pub fn run(_tier: Tier, shard: Shard, rep: &mut Report) {
                 rep.sample(c.to_json());
             }
         }
+    }
+    // handles built with auto_sync(false): durability is off, exposure is not (mode, access mode, offset, content)
+    for cell in all.iter().filter(|c| c.has_writer() && !matches!(c.op, MOp::Get | MOp::Touch)) {
+        no += 1;
+        if !shard.mine(no) {
+            continue;
+        }
+        let mut c = cell.clone();
+        c.auto_sync = false;
+        record(&c, rep);
+        rep.count("auto_sync_off_cells", 1);
     }
     rep.fact("cells_total", serde_json::json!(no));
     crate::run::reset_env();
